@@ -357,3 +357,30 @@ def _norm_set(spec, int_domain):
 def _show(s):
     names = {"n": "subject < bound", "z": "subject == bound", "p": "subject > bound"}
     return "{" + ", ".join(sorted(names.get(x, str(x)) for x in s)) + "}"
+
+
+# ------------------------------------------------------------------ gates
+def back_edges(body: Body):
+    out = set()
+    for u in body.reach:
+        for v in body.succs[u]:
+            if body.dominates(v, u):
+                out.add((u, v))
+    return frozenset(out)
+
+
+def gate_atoms(body: Body, cmp: Cmp, sinks, lhs_is_subject=True):
+    """atoms of sign(subject-bound) under which some sink block is reachable from the
+    comparison within the same loop iteration (back edges removed)."""
+    be = back_edges(body)
+    rel = cmp.rel if lhs_is_subject else FLIP[cmp.rel]
+    acc = set()
+    for edge_rel, dst in ((rel, cmp.true_bb), (NEG[rel], cmp.false_bb)):
+        r = body.reachable_from([dst], cut_edges=be)
+        if r & set(sinks):
+            acc |= ATOMS[edge_rel]
+    return frozenset(acc)
+
+
+def call_blocks(body: Body, pred):
+    return [bb for bb, t in body.calls() if t.get("f") and pred(t["f"])]
